@@ -340,9 +340,16 @@ _DESC_ALPHA = st.one_of(
 )
 
 
+# fragments that look like the escapes / delimiters of the text form: literal text that contains them must survive
+_DESC_FRAGMENTS = ["\\27", "\\5c", "\\5C", "\\7c", "\\", "\\\\", "''", "'", "\\2", "27", "5C", " X-A 'v'", "$ ", "( ", " )", "  ", "   ", "\n ",
+                   "\r\n ", ")", "'\\27'", "{1}", "x-", "X-"]
+
+
 def dtext(max_size: int = 12) -> st.SearchStrategy[str]:
-    """Any non-empty Unicode text (description / extension value)."""
-    return st.text(_DESC_ALPHA, min_size=1, max_size=max_size)
+    """Any non-empty Unicode text (description / extension value): single characters mixed with fragments that look
+    like escapes, quotes, list delimiters and keywords."""
+    atom = st.one_of(_DESC_ALPHA, _DESC_ALPHA, _DESC_ALPHA, st.sampled_from(_DESC_FRAGMENTS))
+    return st.lists(atom, min_size=1, max_size=max(1, max_size // 2)).map("".join)
 
 
 def oid_any() -> st.SearchStrategy[str]:
@@ -354,7 +361,9 @@ def oid_list(max_size: int = 4) -> st.SearchStrategy[t.List[str]]:
 
 
 def xkeys() -> st.SearchStrategy[str]:
-    return st.text(st.sampled_from(list(ALPHA + "-_")), min_size=1, max_size=8)
+    plain = st.text(st.sampled_from(list(ALPHA + "-_")), min_size=1, max_size=8)
+    # names that themselves look like a prefix or a keyword
+    return st.one_of(plain, plain, plain, st.sampled_from(["x-vendor", "X-Y", "x", "X", "-", "_", "NAME", "DESC", "x-", "X--a", "ORIGIN"]))
 
 
 def extensions() -> st.SearchStrategy[t.Dict[str, t.List[str]]]:
